@@ -317,8 +317,15 @@ def oracle(seed, tier, searching=False):
     st, r = xf.convert_form(forms.as_dict({"survey": [{"type": "text", "name": "q", "label": "Q", "save_to": "p"}]}))
     if st == "ok":
         fails.append({"i": -2, "form": {}, "what": "save_to accepted without an entities sheet"})
+    # ... on whatever kind of row the cell sits (an audit row leaves the row loop early: defect F51, fixed)
+    for ty, extra in (("audit", {"name": "audit"}), ("calculate", {"name": "c", "calculation": "1"}), ("note", {"name": "n", "label": "N"}), ("start", {"name": "s"}),
+                      ("select_one l", {"name": "so", "label": "S"}), ("hidden", {"name": "h"})):
+        f2 = {"survey": [{"type": "text", "name": "q", "label": "Q"}, {"type": ty, **extra, "save_to": "p"}], "choices": [{"list_name": "l", "name": "a", "label": "A"}]}
+        st, r = xf.convert_form(forms.as_dict(f2))
+        if st == "ok":
+            fails.append({"i": -3, "form": f2, "what": f"save_to on a row of type {ty} accepted without an entities sheet"})
     return {
-        "evaluations": len(res) + 2,
+        "evaluations": len(res) + 8,
         "distinct_nontrivial": len({r["key"] for r in oks}),
         "exhaustive": True,
         "rule": "all 16 presence combinations of (entity_id, create_if, update_if, label) x 9 placements of save_to x name/column/row variants; "
